@@ -51,6 +51,18 @@ def gen(ctx):
         calls = [ast.unparse(x) for x in ast.walk(T.find_func(tree, q)) if isinstance(x, ast.Call) and ast.unparse(x.func).endswith("post_add")]
         if calls != [call]:
             raise T.Untranslatable(f"UNTRANSLATABLE: {q} calls post_add as {calls}, expected one call {call}")
+    # the two commands that write the rule table: refusal test, no-change tests, and an update that names the row it looked up
+    for path, flagname, order in (("alpenhorn/cli/node/autoclean.py", "autoclean", "node = resolve_node(node_name)"), ("alpenhorn/cli/group/autosync.py", "autosync", "group = resolve_group(group_name)")):
+        fn_ = T.find_func(T.parse(core.REPO / path), flagname)
+        txt = ast.unparse(fn_)
+        tests = [ast.unparse(x.test) for x in T.if_tests(fn_)]
+        if tests != ["group == node.group and (not remove)", f"action.{flagname} is not remove", "remove", "action"]:
+            raise T.Untranslatable(f"UNTRANSLATABLE: the tests of `{flagname}` changed: {tests}")
+        for frag in ("with database_proxy.atomic():", "action = StorageTransferAction.get(node_from=node, group_to=group)",
+                     f"StorageTransferAction.update({flagname}=not remove).where(StorageTransferAction.id == action.id).execute()",
+                     f"StorageTransferAction.create(node_from=node, group_to=group, {flagname}=not remove)"):
+            if frag not in txt:
+                raise T.Untranslatable(f"UNTRANSLATABLE: `{flagname}` no longer contains `{frag}`")
     return {"Gen_postadd": T.HEADER + "\n".join(d) + "\n"}
 
 
@@ -182,6 +194,63 @@ def explore(ctx):
     bad = core.run_cases(ctx, "state", "Corr.C16", "scase", "scheck", sterms, shard=600, extra_imports=("Model.PostAdd",))
     for i in bad[:3]:
         ctx.broke("correspondence", f"state_on_node: model and implementation differ: {sterms[i][:300]}")
+    explore_rules(ctx, 120 if ctx.quick() else 3000)
+
+
+def explore_rules(ctx, n):
+    """random sequences of the real `group autosync` / `node autoclean` commands (with --remove); the table read back for every
+    (node, group) pair, and each command's answer, against Model/Rules.v"""
+    from vf.harness import cliworld as cw
+    from vf.harness import world as w
+
+    rng = ctx.rng
+    terms, keep = [], []
+    for k in range(n):
+        w.fresh_db(host="h1")
+        ng = rng.randint(2, 4)
+        groups = [w.mkgroup(f"G{i}") for i in range(1, ng + 1)]
+        nodes = []
+        for i in range(1, rng.randint(2, 5) + 1):
+            nodes.append(w.mknode(None, f"N{i}", rng.choice(groups), root=f"/nonexistent/N{i}"))
+        cmds, outs, log = [], [], []
+        for _ in range(rng.randint(1, 9)):
+            nd, gr = rng.choice(nodes), rng.choice(groups)
+            flag = rng.choice(["sync", "clean"])
+            enable = rng.random() < 0.7
+            if flag == "sync":
+                code, out, exc = cw.invoke("group autosync", [gr.name, nd.name] + ([] if enable else ["--remove"]))
+            else:
+                code, out, exc = cw.invoke("node autoclean", [nd.name, gr.name] + ([] if enable else ["--remove"]))
+            o = 0 if code != 0 else 1 if "No change" in out else 2
+            if exc is not None and not isinstance(exc, SystemExit):
+                ctx.fail("C16:rule-command-failed", f"{flag} {nd.name}->{gr.name} enable={enable}: {exc!r}", {"family": "rules", "log": log})
+            cmds.append(f"(K {'FSync' if flag == 'sync' else 'FClean'} {cn(nd.id)} {cn(gr.id)} {cbool(enable)})")
+            outs.append(o)
+            log.append((flag, nd.name, gr.name, enable, o))
+        rows = {(r.node_from_id, r.group_to_id): (bool(r.autosync), bool(r.autoclean)) for r in w.StorageTransferAction.select()}
+        if len(rows) != w.StorageTransferAction.select().count():
+            ctx.fail("C16:duplicate-rule-rows", f"two rule records for one (node, group) pair after {log}", {"family": "rules", "log": log})
+        flags = [(nd.id, gr.id) + rows.get((nd.id, gr.id), (False, False)) for nd in nodes for gr in groups]
+        # the property's reading, independently of the model: last accepted command per (flag, node, group) wins, nothing else moves
+        want = {}
+        for flag, ndn, grn, enable, o in log:
+            nd = next(x for x in nodes if x.name == ndn)
+            gr = next(x for x in groups if x.name == grn)
+            if enable and nd.group_id == gr.id:
+                continue
+            want[(flag, nd.id, gr.id)] = enable
+        for (ndid, grid, s_, c_) in flags:
+            for flag, got in (("sync", s_), ("clean", c_)):
+                if got != want.get((flag, ndid, grid), False):
+                    ctx.fail("C16:rules-not-as-configured", f"after {log}: auto{flag} of node {ndid} -> group {grid} is {got}, configured {want.get((flag, ndid, grid), False)}", {"family": "rules", "log": log})
+        ctx.count("rule-commands", len(log))
+        ctx.distinct_add(("rules", tuple(log)))
+        terms.append(ctup(clist([ctup(cn(nd.id), cn(nd.group_id)) for nd in nodes], "(N * N)"), clist(cmds, "cmd"), clist([cn(o) for o in outs], "N"),
+                          clist([ctup(cn(a), cn(b), cbool(c), cbool(d_)) for a, b, c, d_ in flags], "(N * N * bool * bool)")))
+        keep.append(log)
+    bad = core.run_cases(ctx, "rules", "Corr.C16r", "rcase", "rcheck", terms, shard=300, extra_imports=("Model.Rules",))
+    for i in bad[:3]:
+        ctx.broke("correspondence", f"rule commands: model and implementation differ on {keep[i]}")
 
 
 def search(ctx):
